@@ -99,7 +99,8 @@ func buildGroup(gid, seed int) *ltree {
 	// children: after the restart they get the freed low numbers
 	sub := mk("MKDIR", p, "s")
 	t.dirs = append(t.dirs, sub)
-	t.files = append(t.files, mk("CREATE", p, "a"), mk("CREATE", q, "a"), mk("CREATE", q, "b"), mk("CREATE", sub, "a"))
+	t.files = append(t.files, mk("CREATE", p, "a"), mk("CREATE", q, "a"), mk("CREATE", q, "b"), mk("CREATE", sub, "a"),
+		mk("CREATE", sub, "b")) // (two names in the directory that has the dead handle's number: a RENAME of one onto the other through the two handles)
 	if r.Intn(2) == 0 {
 		t.dirs = append(t.dirs, mk("MKDIR", q, "s"))
 	}
@@ -165,6 +166,24 @@ func (t *ltree) catalogue(r *rand.Rand, max int) []*Call {
 			add(c)
 		}
 	}
+	// the dead handle and the live directory that now has its inode number, with names that exist in the live one: a request
+	// that takes the two handles for one directory because their numbers agree works on names the dead handle never had
+	for _, d := range t.dirs {
+		if len(d) < 16 || len(t.dead) < 16 || d[:16] != t.dead[:16] {
+			continue
+		}
+		ns := t.names[d]
+		if len(ns) < 2 {
+			continue
+		}
+		for _, nn := range [][2]string{{ns[0], ns[1]}, {ns[0], "new"}} {
+			for _, pair := range [][2]string{{d, t.dead}, {t.dead, d}} {
+				c := NewCall("RENAME")
+				c.Fh, c.Name, c.Fh2, c.Name2 = pair[0], nn[0], pair[1], nn[1]
+				add(c)
+			}
+		}
+	}
 	var rn []*Call
 	for _, d1 := range hs {
 		for _, d2 := range hs {
@@ -194,6 +213,8 @@ func warm(s *Srv, t *ltree) {
 }
 
 // RunLockProgs records the lock programs for ngroups base states.
+var nTimeouts int
+
 func RunLockProgs(seed, g0, ngroups, maxRename int, t *Trace) {
 	t.Emit(Reset{Ev: "reset", Seg: 0, Driver: "lockprogs", Seed: seed, Root: RootFh()})
 	id := 0
@@ -204,6 +225,9 @@ func RunLockProgs(seed, g0, ngroups, maxRename int, t *Trace) {
 		seen := map[string]*LProg{}
 		var order []*LProg
 		for _, c0 := range cat {
+			if nTimeouts >= 4 { // every call that does not return leaves a goroutine blocked or spinning: enough has been seen
+				break
+			}
 			for _, w := range []bool{false, true} {
 				c := *c0
 				s, err := Start(tr.img.Clone(), true)
@@ -239,6 +263,9 @@ func RunLockProgs(seed, g0, ngroups, maxRename int, t *Trace) {
 					id++
 					t.Emit(p)
 					Mon.Reset()
+					if cc.St == "TIMEOUT" {
+						nTimeouts++
+					}
 					continue
 				}
 				s.WaitIdle()
